@@ -199,4 +199,118 @@ theorem mal_loop1 (self : Self) (inc : String → Option CSpec) (hinc : CompileO
       rw [forIn_cons_ok _ _ _ _ _ hb']
       exact ih _ _
 
+/-! ### the second loop: de-duplication -/
+
+/-- `unique = []; for item in l: if item not in unique: unique.append(item)` on Python values -/
+def dedupV (acc l : List V) : List V := l.foldl (fun acc x => if acc.any (V.eq x) then acc else acc ++ [x]) acc
+
+theorem unique_loop (l acc : List V) :
+    (forIn l (V.list acc) (fun item __s => do
+        let b ← pyIn item __s
+        if b = false then ForInStep.yield <$> pyAppend __s item else pure (ForInStep.yield __s)) : M V) =
+      .ok (V.list (dedupV acc l)) := by
+  induction l generalizing acc with
+  | nil => rfl
+  | cons x xs ih =>
+    by_cases h : acc.any (V.eq x) = true
+    · rw [forIn_cons_ok x xs (V.list acc) (V.list acc) _ (by simp [pyIn, h]; rfl)]
+      rw [ih]; simp only [dedupV, List.foldl_cons, h, if_true]
+    · have h' : acc.any (V.eq x) = false := by simpa using h
+      rw [forIn_cons_ok x xs (V.list acc) (V.list (acc ++ [x])) _ (by simp [pyIn, h', pyAppend]; rfl)]
+      rw [ih]; simp only [dedupV, List.foldl_cons, h', Bool.false_eq_true, if_false]
+
+local macro "mal_step2" : tactic => `(tactic| (
+  simp only [malBody2, malBodySpec]
+  simp [specV, pyGetItem, keyOf, List.lookup, pyIter, unique_loop, pySetItem, dictPut]
+  try rfl))
+
+theorem body2_categories (dv : V) (cl al sl : List V) (u : V) :
+    malBody2 (.str "categories") (specV dv (.list cl) (.list al) (.list sl), u) =
+      .ok (.yield (specV dv (.list (dedupV [] cl)) (.list al) (.list sl), .list (dedupV [] cl))) := by
+  mal_step2
+
+theorem body2_assets (dv : V) (cl al sl : List V) (u : V) :
+    malBody2 (.str "assets") (specV dv (.list cl) (.list al) (.list sl), u) =
+      .ok (.yield (specV dv (.list cl) (.list (dedupV [] al)) (.list sl), .list (dedupV [] al))) := by
+  mal_step2
+
+theorem body2_associations (dv : V) (cl al sl : List V) (u : V) :
+    malBody2 (.str "associations") (specV dv (.list cl) (.list al) (.list sl), u) =
+      .ok (.yield (specV dv (.list cl) (.list al) (.list (dedupV [] sl)), .list (dedupV [] sl))) := by
+  mal_step2
+
+/-- the de-duplication on Python values is the model's `dedupBy`, for any rendering under which `==` is the
+model's relation -/
+theorem dedupV_map {α : Type} (r : α → V) (e : α → α → Bool) (h : ∀ a b, V.eq (r a) (r b) = e a b) (acc l : List α) :
+    dedupV (acc.map r) (l.map r) = (dedupByAux e acc l).map r := by
+  induction l generalizing acc with
+  | nil => rfl
+  | cons x xs ih =>
+    rw [dedupByAux_cons]
+    simp only [dedupV, List.map_cons, List.foldl_cons] at ih ⊢
+    have hany : (acc.map r).any (V.eq (r x)) = acc.any (e x) := by
+      simp only [List.any_map, Function.comp_def, h]
+    rw [hany]
+    split
+    · exact ih acc
+    · have := ih (acc ++ [x]); simpa using this
+
+/-- **the second loop of `visitMal`** -/
+theorem mal_loop2 (dv : V) (cl al sl : List V) (u : V) :
+    forIn dedupKeys (specV dv (.list cl) (.list al) (.list sl), u) malBody2 =
+      .ok (specV dv (.list (dedupV [] cl)) (.list (dedupV [] al)) (.list (dedupV [] sl)), .list (dedupV [] sl)) := by
+  rw [dedupKeys, forIn_cons_ok _ _ _ _ _ (body2_categories dv cl al sl u),
+    forIn_cons_ok _ _ _ _ _ (body2_assets dv _ al sl _), forIn_cons_ok _ _ _ _ _ (body2_associations dv _ _ sl _)]
+  rfl
+
+/-! ### `visitMal` -/
+
+/-- Python's `==` on the rendered categories / assets / associations is the model's relation (`TieVisitorEq.lean`) -/
+structure EqOK : Prop where
+  cat : ∀ a b, V.eq (rCategory a) (rCategory b) = catEqv a b
+  asset : ∀ a b, V.eq (rAsset a) (rAsset b) = assetEqv a b
+  assoc : ∀ a b, V.eq (rAssoc a) (rAssoc b) = assocEqv a b
+
+theorem rSpec_finish (heq : EqOK) (s : CSpec) :
+    specV (rMeta s.defines) (.list (dedupV [] (s.categories.map rCategory))) (.list (dedupV [] (s.assets.map rAsset)))
+      (.list (dedupV [] (s.associations.map rAssoc))) = rSpec (finishSpec s) := by
+  have h1 := dedupV_map rCategory catEqv heq.cat [] s.categories
+  have h2 := dedupV_map rAsset assetEqv heq.asset [] s.assets
+  have h3 := dedupV_map rAssoc assocEqv heq.assoc [] s.associations
+  simp only [List.map_nil] at h1 h2 h3
+  rw [h1, h2, h3, rSpec_eq]
+  rfl
+
+/-- **`visitMal`** on a `mal` node: given that visiting the child of every `declaration` gives the rendering of the
+model's declaration, and that `self.compiler.compile` gives the rendering of the model's compilation of an included
+file (an exception where the model fails), the translated `visitMal` returns the rendering of the model's `assemble`
+(defines updated, categories / assets / associations appended, included specifications merged key by key, then the
+first-occurrence de-duplication with Python's `==`) — and raises exactly when an include fails. -/
+theorem visitMal_spec (self : Self) (inc : String → Option CSpec) (hinc : CompileOK self inc) (heq : EqOK)
+    (cs up : List PT) (ds : List Decl)
+    (hvis : Forall2 (DeclVisits self) ((cs.filter (isRule "declaration")).map (mkCtx (.rule "mal" cs) up)) ds) :
+    match assemble inc ds with
+    | some s => visitMal self (.ctx (.rule "mal" cs) up) = .ok (rSpec s)
+    | none => ∃ e, visitMal self (.ctx (.rule "mal" cs) up) = .error e := by
+  rw [visitMal_eq, ctxAcc_eq acc_mal_declaration]
+  simp only [runAcc, PT.children, okBind, pure, Except.pure, pyIter]
+  have h1 := mal_loop1 self inc hinc _ ds hvis {} (V.unbound, V.unbound, V.unbound, V.unbound, V.unbound, V.unbound)
+  rw [show rSpec ({} : CSpec) = spec0 from rfl] at h1
+  unfold assemble
+  cases hf : List.foldlM (assembleStep inc) ({} : CSpec) ds with
+  | none =>
+    rw [hf] at h1
+    obtain ⟨e, he⟩ := h1
+    refine ⟨e, ?_⟩
+    rw [he]; rfl
+  | some s =>
+    rw [hf] at h1
+    obtain ⟨st', he⟩ := h1
+    simp only [Option.map_some]
+    rw [he]
+    simp only [okBind]
+    rw [rSpec_eq, mal_loop2]
+    simp only [okBind]
+    rw [← rSpec_finish heq s]
+
 end MalVerif.Py.Visitor
